@@ -56,6 +56,7 @@ class C16(Check):
         "error (stderr or log) names a file of S, every file of S byte-identical afterwards; run with default --clobber: exit 0 and every output file "
         "== clean run (so the longer sentinel was truncated), no other file in the directory. non-trivial = subset with at least two files or not "
         "containing the first file the run writes"
+        " Clobber twin run twice: default and explicit --clobber."
     )
     assumptions = ["in-process CliRunner invocation stands for the installed entry point", "one input assembly and two maps; the file set varies by format/log/map"]
     shard_timeout = {"quick": 900, "thorough": 3600}
